@@ -185,7 +185,7 @@ func runVariant(exe, repo, prop string, v Variant) variantResult {
 	data, _ := json.Marshal(ov)
 	tmp.Write(data)
 	tmp.Close()
-	cmd := exec.Command(exe, "-property", prop, "-repo", repo, "-overlay", tmp.Name(), "-no-evidence")
+	cmd := exec.Command(exe, "-property", prop, "-repo", repo, "-overlay", tmp.Name(), "-no-evidence", "-verif", corpusVerif)
 	out, _ := cmd.CombinedOutput()
 	var bad []string
 	for _, line := range strings.Split(string(out), "\n") {
@@ -237,7 +237,11 @@ func firstLineAfter(s, marker string) string {
 	return rest
 }
 
+// corpusVerif: the verification directory handed to variant subprocesses (known findings).
+var corpusVerif = "/verif"
+
 func corpusFor(id, repo, verif string) any {
+	corpusVerif = verif
 	vs, err := loadVariants(verif)
 	if err != nil {
 		return map[string]any{"error": err.Error()}
@@ -295,6 +299,7 @@ var runCorpus func(id, repo, verif string) any
 // selfTest runs the whole corpus for every property and prints a matrix;
 // disagreement is fatal here (developer command), not in registered checks.
 func selfTest(repo, verif string, only string) int {
+	corpusVerif = verif
 	vs, err := loadVariants(verif)
 	if err != nil {
 		fmt.Println("corpus:", err)
